@@ -4,6 +4,7 @@ import (
 	"fmt"
 	"go/token"
 	"go/types"
+	"os"
 	"strings"
 
 	"golang.org/x/tools/go/ssa"
@@ -70,18 +71,50 @@ func (c *Ctx) trieWalk(pkg string, entry *ssa.Function) (head *ssa.Function, mem
 			members[f] = true
 		}
 	}
-	for _, f := range sortedFuncs(members) {
-		for _, site := range c.P.StaticCallers(f) {
-			if !members[site.Parent()] && !members[enclosingTop(site.Parent())] {
-				head = f
-			}
-		}
-	}
-	if head == nil {
-		for _, f := range sortedFuncs(members) {
+	// the routine is the first cycle met from the entry point (breadth first); other cycles reachable from it (a
+	// subtree enumeration called from the walk) are routines of their own
+	queue, seenQ := []*ssa.Function{entry}, map[*ssa.Function]bool{entry: true}
+	for len(queue) > 0 && head == nil {
+		f := queue[0]
+		queue = queue[1:]
+		if members[f] {
 			head = f
 			break
 		}
+		for _, h := range callees(f) {
+			if !seenQ[h] {
+				seenQ[h] = true
+				queue = append(queue, h)
+			}
+		}
+	}
+	if head != nil {
+		reaches := func(from, to *ssa.Function) bool {
+			seen := map[*ssa.Function]bool{}
+			var walk func(g *ssa.Function, d int) bool
+			walk = func(g *ssa.Function, d int) bool {
+				for _, h := range callees(g) {
+					if h == to {
+						return true
+					}
+					if !seen[h] && d > 0 {
+						seen[h] = true
+						if walk(h, d-1) {
+							return true
+						}
+					}
+				}
+				return false
+			}
+			return walk(from, 4)
+		}
+		scc := map[*ssa.Function]bool{head: true}
+		for f := range members {
+			if f != head && reaches(head, f) && reaches(f, head) {
+				scc[f] = true
+			}
+		}
+		members = scc
 	}
 	return head, members
 }
@@ -102,6 +135,20 @@ func (c *Ctx) ruleNonInterference(id, pkg string, entry *ssa.Function, what stri
 	fns := c.funcsDeepStop(head, 3, func(g *ssa.Function) bool {
 		return g.Package() == nil || g.Package().Pkg.Path() != c.P.Rel(pkg)
 	})
+	// the wrappers between the entry point and the routine run before the first step: their decisions count too
+	inFns := map[*ssa.Function]bool{}
+	for _, f := range fns {
+		inFns[f] = true
+	}
+	for _, f := range c.funcsDeepStop(entry, 3, func(g *ssa.Function) bool {
+		return g.Package() == nil || g.Package().Pkg.Path() != c.P.Rel(pkg) || members[g]
+	}) {
+		if !inFns[f] {
+			inFns[f] = true
+			fns = append(fns, f)
+		}
+	}
+	children, _, _ := c.nodeFields(pkg)
 	for _, f := range fns {
 		c.R.Fn(c.fname(f))
 		bad := ""
@@ -112,7 +159,13 @@ func (c *Ctx) ruleNonInterference(id, pkg string, entry *ssa.Function, what stri
 				continue
 			}
 			n++
+			if why := c.presenceTestSkips(f, iff, children, members); why != "" {
+				bad = why
+			}
 			t := core.Term(iff.Cond)
+			if os.Getenv("WASPCHECK_DEBUG") != "" {
+				fmt.Fprintln(os.Stderr, "NI cond", c.fname(f), t)
+			}
 			readsPayload := strings.Contains(t, ")."+payload)
 			readsFanout := strings.Contains(t, "builtin:len(") && strings.Contains(t, ").Children")
 			if !readsPayload && !readsFanout {
@@ -137,6 +190,96 @@ func (c *Ctx) ruleNonInterference(id, pkg string, entry *ssa.Function, what stri
 		}
 		ru.Check(bad == "", "branch conditions of "+c.fname(f), c.where(f, f), fmt.Sprintf("%d condition(s), none lets other entries' data steer descent", n), bad)
 	}
+}
+
+// presenceTestSkips: iff tests whether a particular child exists (the ok of a look-up in a node's children map). The
+// code that runs only when the child exists may concern that child alone: if it also enumerates or looks up other
+// children, or descends from a node that is not the child found, then the absence of one child suppresses work on the
+// others (a fast path such as "no literal child, nothing to do" ignores the wildcard children). Returns the finding.
+func (c *Ctx) presenceTestSkips(f *ssa.Function, iff *ssa.If, children string, members map[*ssa.Function]bool) string {
+	cond, neg := iff.Cond, false
+	for {
+		u, ok := cond.(*ssa.UnOp)
+		if !ok || u.Op != token.NOT {
+			break
+		}
+		cond, neg = u.X, !neg
+	}
+	ex, ok := cond.(*ssa.Extract)
+	if !ok || ex.Index != 1 {
+		return ""
+	}
+	lk, ok := ex.Tuple.(*ssa.Lookup)
+	if !ok || !lk.CommaOk {
+		return ""
+	}
+	isChildrenOf := func(m ssa.Value) (node ssa.Value, ok bool) {
+		ld, isLd := m.(*ssa.UnOp)
+		if !isLd || ld.Op != token.MUL {
+			return nil, false
+		}
+		fa, isFA := ld.X.(*ssa.FieldAddr)
+		if !isFA || fieldNameOf(fa.X.Type(), fa.Field) != children {
+			return nil, false
+		}
+		return fa.X, true
+	}
+	if _, ok := isChildrenOf(lk.X); !ok {
+		return ""
+	}
+	var found ssa.Value
+	if lk.Referrers() != nil {
+		for _, r := range *lk.Referrers() {
+			if e, ok := r.(*ssa.Extract); ok && e.Index == 0 {
+				found = e
+			}
+		}
+	}
+	blk := iff.Block()
+	present, absent := blk.Succs[0], blk.Succs[1]
+	if neg {
+		present, absent = absent, present
+	}
+	reach := func(from *ssa.BasicBlock) map[*ssa.BasicBlock]bool {
+		seen := map[*ssa.BasicBlock]bool{from: true}
+		work := []*ssa.BasicBlock{from}
+		for len(work) > 0 {
+			b := work[0]
+			work = work[1:]
+			for _, s := range b.Succs {
+				if !seen[s] {
+					seen[s] = true
+					work = append(work, s)
+				}
+			}
+		}
+		return seen
+	}
+	rp, ra := reach(present), reach(absent)
+	fromFound := func(v ssa.Value) bool {
+		return found != nil && depReaches(v, func(w ssa.Value) bool { return w == found })
+	}
+	for b := range rp {
+		if ra[b] {
+			continue
+		}
+		for _, in := range b.Instrs {
+			switch x := in.(type) {
+			case *ssa.Range:
+				if node, ok := isChildrenOf(x.X); ok && !fromFound(node) {
+					return "the children of a node are enumerated only when one particular child exists (test at " + c.whereI(iff) + "): its absence suppresses the others — wildcard children included"
+				}
+			case *ssa.Lookup:
+				if node, ok := isChildrenOf(x.X); ok && !fromFound(node) {
+					return "another child is looked up only when one particular child exists (test at " + c.whereI(iff) + ")"
+				}
+			}
+			if cl := core.CallOf(in); cl != nil && cl.Static != nil && members[cl.Static] && len(cl.Common.Args) > 0 && !fromFound(cl.Common.Args[0]) {
+				return "the walk descends from a node other than the child found, and only when that child exists (test at " + c.whereI(iff) + "): without that one child nothing is matched, wildcard children included"
+			}
+		}
+	}
+	return ""
 }
 
 func checkC01(c *Ctx) {
@@ -734,6 +877,7 @@ func checkC07(c *Ctx) {
 		}
 		c.ruleVisibility("C07-R3", &sub, 1)
 		c.ruleMergeTable("C07-R6", d)
+		c.ruleSuccessWrites("C07-R8", d, "TopicsState")
 	}
 	c.ruleRetainedWildcardParent("C07-R7")
 	// R4
